@@ -4,10 +4,16 @@ M: Elbow.tla - the mechanism lemmas (only the corner triple turns; the two end-p
 G: every generated elbow replayed into curvature.knee, dfdt.knee, menger.knee, lmethod.knee (Fit x Refinement),
    lmethod.get_knee (Fit x Cost) and kneedle.knee(t=0) on monotone members; expected answer = the corner index.
 T: harness-generated long elbows (arms up to 40, random spacings, all slope pairs) are first validated as members of
-   the family by TLC (Trace_Elbow) and then replayed the same way."""
+   the family by TLC (Trace_Elbow) and then replayed the same way.
+S: production-size elbows (257 .. 110 000 points; sizes straddling 2^8 .. 2^16, 10^4, 10^5) given by a compact description
+   (arm lengths, tiled spacing patterns, slopes, offset), replayed into every detector the property names (the L-method,
+   which is quadratic, on the smaller sizes) and admitted + judged by TLC (Trace_ElbowScale) from the description, sparse
+   samples of the replayed array and the answers."""
+import fractions
+
 import numpy as np
 
-from harness import growth, monitor, numeric, par
+from harness import growth, monitor, numeric, par, scale
 
 
 def _detect(item):
@@ -78,14 +84,308 @@ def _long_elbows(rng, count):
     return out
 
 
+# ------------------------------------------------------------------------------------------------------------------
+# S: the scale family.  A curve is a compact, JSON-able description
+#    {"a", "b": arm lengths in segments, "pat1", "pat2": spacing patterns over 1..4 tiled along each arm,
+#     "s1", "s2": slopes in eighths, "off8": offset in eighths}            corner index = a, n = a + b + 1 points
+# which is what TLC (Trace_ElbowScale) sees, together with sparse samples of the array that was replayed.
+NEAR = [(64, 63), (63, 64), (-64, -63), (-63, -64), (-32, -33), (-33, -32), (32, 33), (33, 32),       # 8 vs 7.875, -4 vs -4.125
+        (64, 56), (56, 64), (-56, -64), (-64, -56), (-32, -40), (16, 15), (-8, -9), (2, 1), (-1, -2)]
+SHARP = [(64, 1), (1, 64), (-64, -1), (-1, -64), (64, 8), (8, 64), (-64, -8), (-8, -64), (40, 3)]
+VEE = [(64, -64), (-64, 64), (-8, 8), (5, -3), (63, -64), (-1, 1), (16, -56)]
+FLAT = [(0, 5), (-7, 0), (0, -64), (64, 0), (0, 8), (8, 0), (0, -1)]
+FORCED = [(64, 63), (63, 64), (-64, -63), (-63, -64), (-32, -33), (-33, -32)]      # every orientation of a faint steep corner
+PATS = [[1], [1], [4], [2], [3], [1, 3], [1, 2, 3, 4], [4, 1, 1], [2, 4], [4, 4, 4, 1]]
+KNEEDLE_STEP = 1e-13     # smallest step of the normalised difference curve that still pins Kneedle's peak (noise is < 1e-15)
+LM_POINT = 4.0e-9        # rough seconds per (n^2) of one L-method pass, point fit / best fit: used only to order and size the work
+LM_BEST = 4.5e-8
+
+
+def _scale_build(cv):
+    a, b = cv["a"], cv["b"]
+    dx = np.concatenate([np.resize(np.array(cv["pat1"], float), a), np.resize(np.array(cv["pat2"], float), b)])
+    sl = np.concatenate([np.full(a, float(cv["s1"])), np.full(b, float(cv["s2"]))])
+    x = np.concatenate([[0.0], np.cumsum(dx)])
+    y8 = float(cv["off8"]) + np.concatenate([[0.0], np.cumsum(dx * sl)])        # integers far below 2^53: exact
+    return np.ascontiguousarray(np.column_stack([x, y8 / 8.0]))
+
+
+def _scale_member(cv, P):
+    """The harness's own whole-array test (TLC sees the description and sparse samples only): exact representation,
+    spacings in 1..4 and no turning triple but the corner's."""
+    a, n = cv["a"], len(P)
+    x, y8 = P[:, 0], P[:, 1] * 8.0
+    if n != a + cv["b"] + 1 or not (np.all(x == np.round(x)) and np.all(y8 == np.round(y8)) and np.abs(y8).max() < 2.0 ** 40):
+        return False
+    dx = np.diff(x)
+    if not (np.all(dx >= 1) and np.all(dx <= 4)):
+        return False
+    cr = dx[:-1] * np.diff(y8)[1:] - np.diff(y8)[:-1] * dx[1:]                 # exact: small integers times integers < 2^40
+    turning = np.nonzero(cr)[0] + 1
+    if not (len(turning) == 1 and turning[0] == a):
+        return False
+    if cv["pat1"] == [1] and cv["pat2"] == [1] and cv["off8"] == 0 and min(cv["s1"], cv["s2"]) >= 0:
+        return bool(np.array_equal(P, scale.elbow(n, a, cv["s1"] / 8.0, cv["s2"] / 8.0)))     # the shared builder, same curve
+    return True
+
+
+def _scale_mono(cv):
+    return cv["s1"] * cv["s2"] >= 0
+
+
+def _kneedle_pinned(cv, P):
+    """Kneedle's difference curve of a monotone elbow moves, per unit of x, by |arm slope - chord slope| / |y range| in
+    normalised units.  When that is within a few hundred ulps of 1 the peak is a rounding tie that pins nothing."""
+    F = fractions.Fraction
+    xr = F(int(P[-1, 0] - P[0, 0]))
+    yr = F(int(round((P[-1, 1] - P[0, 1]) * 8)), 8)
+    if yr == 0:
+        return False
+    chord = yr / xr
+    step = min(abs(F(cv["s1"], 8) - chord), abs(F(cv["s2"], 8) - chord)) / abs(yr)
+    return step >= F(KNEEDLE_STEP)
+
+
+def _scale_calls(cv, group, P):
+    import kneeliverse.curvature as cu
+    import kneeliverse.dfdt as df
+    import kneeliverse.menger as me
+    import kneeliverse.lmethod as lm
+    import kneeliverse.kneedle as kn
+    integral = cv["s1"] % 8 == 0 and cv["s2"] % 8 == 0 and cv["off8"] % 8 == 0
+    mono = _scale_mono(cv)
+    calls, skipped = [], []
+    g = group.split("|")
+    if g[0] == "lin":
+        calls = [("curvature", cu.knee, (P,)), ("dfdt", df.knee, (P,)), ("menger", me.knee, (P,))]
+        pinned = mono and _kneedle_pinned(cv, P)
+        if pinned:
+            calls.append(("kneedle(t=0)", kn.knee, (P, 0)))
+        elif mono:
+            skipped.append("kneedle(t=0)")
+        if integral:
+            PI = P.astype(np.int64)
+            calls += [("curvature[int64]", cu.knee, (PI,)), ("dfdt[int64]", df.knee, (PI,)), ("menger[int64]", me.knee, (PI,))]
+            if pinned:
+                calls.append(("kneedle(t=0)[int64]", kn.knee, (PI, 0)))
+    else:
+        fit = {str(f): f for f in lm.Fit}[g[1]]
+        A = P.astype(np.int64) if g[-1] == "int64" else P
+        tag = "[int64]" if g[-1] == "int64" else ""
+        if g[2] == "knee":
+            r = {str(r): r for r in lm.Refinement}[g[3]]
+            calls = [("lmethod.knee(%s,%s)%s" % (fit, r, tag), lm.knee, (A, fit, r))]
+        else:
+            c = {str(c): c for c in lm.Cost}[g[3]]
+            calls = [("lmethod.get_knee(%s,%s)%s" % (fit, c, tag), lm.get_knee, (A[:, 0], A[:, 1], fit, c))]
+    return calls, skipped
+
+
+def _scale_item(item):
+    """(description, group) -> {"answers": [[detector, index or -1]], "bad": [(clause, detail)], "samples": [[i, x, y8]],
+    "skipped": [...], "member": bool}"""
+    cv, group = item
+    P = _scale_build(cv)
+    n = len(P)
+    out = {"answers": [], "bad": [], "skipped": [], "member": _scale_member(cv, P), "samples": []}
+    if not out["member"]:
+        return out
+    calls, out["skipped"] = _scale_calls(cv, group, P)
+    for name, fn, args in calls:
+        o, v, _ = monitor.call(fn, args, budget=monitor.quad(n, 8), wall=int(300 + 2e-6 * n * n))
+        if o != "returned":
+            out["bad"].append(("terminates" if o in ("budget", "watchdog") else "returns", {"detector": name, "outcome": o, "error": v}))
+            continue
+        if isinstance(v, tuple):
+            v = v[0]
+        try:
+            got = -1 if v is None else int(v)
+        except Exception:
+            out["bad"].append(("returns", {"detector": name, "outcome": "returned a non-index", "error": repr(v)[:80]}))
+            continue
+        out["answers"].append([name, got if 0 <= got < n else -1 if got < 0 else n])
+    want = {0, cv["a"] - 1, cv["a"], cv["a"] + 1, n - 1}
+    for _, got in out["answers"]:
+        want |= {k for k in (got - 1, got, got + 1) if 0 <= k < n}
+    for k in (n // 3, (2 * n) // 3, max(0, min(n - 1, 4096)), max(0, min(n - 1, 32768)), max(0, min(n - 1, 65536))):
+        want.add(k)
+    out["samples"] = [[k, int(P[k, 0]), int(round(P[k, 1] * 8))] for k in sorted(want)]
+    return out
+
+
+def _scale_groups(cv, lm_fits):
+    integral = cv["s1"] % 8 == 0 and cv["s2"] % 8 == 0 and cv["off8"] % 8 == 0
+    gs = []
+    for fit in lm_fits:
+        gs += ["lm|%s|knee|%s" % (fit, r) for r in ("none", "original", "adjusted")]
+        gs += ["lm|%s|get_knee|%s" % (fit, c) for c in ("rss", "rmse")]
+        if fit == "pointfit" and integral:
+            gs.append("lm|pointfit|knee|adjusted|int64")
+    return gs
+
+
+def _scale_cost(cv, group):
+    n = cv["a"] + cv["b"] + 1
+    if group == "lin":
+        return 1e-5 * n
+    return (LM_BEST if "|bestfit|" in group else LM_POINT) * n * n * (2 if "|knee|" in group and "|none" not in group else 1)
+
+
+def _scale_curve(rng, n, pair=None, place=None):
+    m = n - 1
+    place = place or rng.choice(["short-left", "short-right", "fifth", "half", "four-fifths", "seam", "any"])
+    if place == "short-left":
+        a = rng.randint(3, 9)
+    elif place == "short-right":
+        a = m - rng.randint(3, 9)
+    elif place in ("fifth", "half", "four-fifths"):
+        a = int(m * {"fifth": 0.2, "half": 0.5, "four-fifths": 0.8}[place]) + rng.randint(-7, 7)
+    elif place == "seam":       # the corner on, just before or just after a typical block / index-width boundary
+        ts = [t + o for t in scale.THRESHOLDS for o in (-1, 0, 1) if 3 <= t + o <= m - 3]
+        a = rng.choice(ts) if ts else m // 2
+    else:
+        a = rng.randint(3, m - 3)
+    a = max(3, min(m - 3, a))
+    if pair is None:
+        pool = rng.choice([NEAR, NEAR, SHARP, VEE, FLAT, None])
+        pair = rng.choice(pool) if pool else tuple(rng.sample(range(-64, 65), 2))
+    pats = []
+    for _ in range(2):
+        if rng.random() < 0.35:
+            pats.append([rng.randint(1, 4) for _ in range(rng.choice([5, 7, 13, 31, 61, 97]))])
+        else:
+            pats.append(list(rng.choice(PATS)))
+    if rng.random() < 0.4:
+        pats[1] = list(pats[0])
+    return {"a": a, "b": m - a, "s1": pair[0], "s2": pair[1], "off8": rng.choice([0, 0, 4, 8 * 4096, 2, 1, 8 * 17, 8 * 1024]),
+            "pat1": pats[0], "pat2": pats[1]}
+
+
+def _scale_plan(ctx):
+    """[(description, [groups])]: every curve goes through the linear-time detectors; the L-method (quadratic: about 4 ns x n^2
+    per pass in point-fit mode, ten times that with polyfit) gets its own, smaller, sizes."""
+    rng, q = ctx.rng, ctx.quick
+    plan = []
+    lin_sizes = scale.sizes(ctx, lo=257, hi=110000, k_quick=6, k_thorough=16)
+    for n in lin_sizes:
+        for _ in range(5 if q else 12):
+            plan.append((_scale_curve(rng, n), ["lin"]))
+    top = lin_sizes[-1]                       # always > 10^5: faint steep corners in every orientation, long spacings
+    for pair in FORCED:
+        for place in (["fifth", "four-fifths"] if q else ["fifth", "half", "four-fifths", "seam"]):
+            cv = _scale_curve(rng, top, pair=pair, place=place)
+            plan.append((cv, ["lin"]))
+    pf_sizes = scale.sizes(ctx, lo=1000, hi=20500 if q else 70000, k_quick=3, k_thorough=7)
+    for n in pf_sizes:
+        big = n > (12000 if q else 30000)
+        for k in range(1 if big else 2):
+            cv = _scale_curve(rng, n, pair=rng.choice(NEAR + SHARP) if k == 0 else None)
+            plan.append((cv, ["lin"] + _scale_groups(cv, ["pointfit"])))
+    bf_sizes = scale.sizes(ctx, lo=257, hi=4200 if q else 17000, k_quick=3, k_thorough=6)
+    for n in bf_sizes:
+        big = n > 9000
+        for k in range(1 if big else 2):
+            cv = _scale_curve(rng, n, pair=rng.choice(NEAR + SHARP) if k == 0 else None)
+            plan.append((cv, ["lin"] + _scale_groups(cv, ["bestfit"] if n > 2100 else ["bestfit", "pointfit"])))
+    for k, (cv, _) in enumerate(plan):
+        cv["id"] = "S%d" % k
+    return plan, {"linear": lin_sizes, "lmethod_pointfit": pf_sizes, "lmethod_bestfit": bf_sizes}
+
+
+def _scale_case(cv, group, res):
+    c = {k: cv[k] for k in ("a", "b", "s1", "s2", "off8", "pat1", "pat2")}
+    c.update(id="%s/%s" % (cv["id"], group), mono=_scale_mono(cv), samples=res["samples"],
+             answers=[{"d": d, "got": g, "mono_only": d.startswith("kneedle")} for d, g in res["answers"]])
+    return c
+
+
+def _scale_selftests():
+    cv = {"id": "st", "a": 5, "b": 4, "s1": 8, "s2": 3, "off8": 4, "pat1": [1, 3], "pat2": [2]}
+    P = _scale_build(cv)
+    smp = [[k, int(P[k, 0]), int(round(P[k, 1] * 8))] for k in range(len(P))]
+    ok = _scale_case(cv, "lin", {"samples": smp, "answers": [["curvature", 5], ["kneedle(t=0)", 5]]})
+    wrong = dict(ok, answers=[{"d": "curvature", "got": 6, "mono_only": False}])
+    none = dict(ok, answers=[{"d": "kneedle(t=0)", "got": -1, "mono_only": True}])
+    short = dict(ok, b=2)
+    steep = dict(ok, s1=65)
+    moved = dict(ok, samples=[s if s[0] != 7 else [7, s[1], s[2] + 1] for s in smp])
+    sparse = dict(ok, samples=[s for s in smp if s[0] != 4])
+    vee = dict(ok, s2=-3, mono=False, samples=[[k, x, y if k <= 5 else 2 * smp[5][2] - y] for k, x, y in smp])
+    return [(ok, "ok"), (wrong, "corner"), (none, "corner"), (short, "not-in-family"), (steep, "not-in-family"),
+            (moved, "sample-mismatch"), (sparse, "sample-missing"), (vee, "outside-quantifier"), (dict(ok, mono=False), "mono-flag")]
+
+
+def _scale(ctx, seen):
+    plan, sizes = _scale_plan(ctx)
+    items = [(cv, g) for cv, gs in plan for g in gs]
+    order = sorted(range(len(items)), key=lambda k: -_scale_cost(*items[k]))          # longest first, one item per task
+    res = [None] * len(items)
+    for k, r in zip(order, par.pmap(_scale_item, [items[k] for k in order], chunksize=1)):
+        res[k] = r
+    outside = [cv["id"] for (cv, g), r in zip(items, res) if not r["member"]]
+    if outside:
+        raise RuntimeError("harness built a scale curve outside the elbow family: %s" % outside[:3])
+    cases = [_scale_case(cv, g, r) for (cv, g), r in zip(items, res) if r["answers"]]
+    rej = ctx.trace("Trace_ElbowScale", cases, selftest=_scale_selftests(), chunk=400)
+    byid = {"%s/%s" % (cv["id"], g): (cv, g) for cv, g in items}
+    calls = {}
+    for (cv, g), r in zip(items, res):
+        for d, _ in r["answers"]:
+            calls[d.split("(")[0]] = calls.get(d.split("(")[0], 0) + 1
+        for clause, detail in r["bad"]:
+            key = (clause, detail.get("detector"))
+            seen[key] = seen.get(key, 0) + 1
+            if seen[key] <= 2:
+                ctx.violation(clause, {"scale": {k: v for k, v in cv.items()}, "group": g}, detail, match="%s:%s" % key)
+    for cid, verdicts in sorted(rej.items()):
+        cv, g = byid[cid]
+        for v in verdicts:
+            if v[0] != "corner":
+                raise RuntimeError("Trace_ElbowScale did not admit a harness-built case %s: %s" % (cid, v))
+            d, got = v[1], v[2]
+            clause = "corner(%s)" % d.split("(")[0].split(".")[0]
+            key = (clause, d)
+            seen[key] = seen.get(key, 0) + 1
+            if seen[key] <= 2:
+                ctx.violation(clause, {"scale": {k: v for k, v in cv.items()}, "group": g},
+                              {"detector": d, "got": None if got < 0 else got, "corner": cv["a"], "points": cv["a"] + cv["b"] + 1},
+                              match="%s:%s" % key)
+    near_tie = 0
+    for cv, gs in plan:
+        ctx.count(("S", {k: v for k, v in cv.items() if k != "id"}), True)
+    for (cv, g), r in zip(items, res):
+        near_tie += len(r["skipped"])
+    big = max(plan, key=lambda p: p[0]["a"] + p[0]["b"])[0]
+    ctx.sample({"binding": "T (scale)", "elbow": big, "points": big["a"] + big["b"] + 1,
+                "answers": [r["answers"] for (cv, g), r in zip(items, res) if cv is big and g == "lin"][0]})
+    ctx.extra["scale"] = {"sizes": sizes, "curves": len(plan), "replays_by_detector": calls,
+                          "largest_lmethod_replay": {f: max([cv["a"] + cv["b"] + 1 for cv, g in items if "|%s|" % f in g] or [0])
+                                                     for f in ("pointfit", "bestfit")},
+                          "kneedle_near_tie_not_judged": near_tie}
+    ctx.note("scale: the L-method is quadratic, so it is replayed on elbows of at most %d (point fit) / %d (best fit) points in "
+             "this tier; the linear-time detectors go up to %d points.  Kneedle is not judged on a monotone elbow whose "
+             "normalised difference curve moves by less than %.0e per unit of x (%d such replays here)"
+             % (ctx.extra["scale"]["largest_lmethod_replay"]["pointfit"], ctx.extra["scale"]["largest_lmethod_replay"]["bestfit"],
+                sizes["linear"][-1], KNEEDLE_STEP, near_tie))
+
+
+
 def run(ctx):
     ctx.rule = ("G: arms 3..4 (thorough 3..6) x spacing patterns over {1,2,3,4} x slope pairs covering every orientation class "
                 "(thorough: all ordered pairs of 14 slopes) x offsets {0, 1/2, 4096}, each replayed into 4 detectors x all "
                 "options (+ Kneedle t=0 on monotone members); T: random long elbows (arms <= 40, plus a few very long unbalanced ones up to 520) admitted by TLC as family "
-                "members.  every case is non-trivial (two distinct slopes); distinct = distinct curve")
+                "members.  every case is non-trivial (two distinct slopes); distinct = distinct curve.  "
+                "S (scale): elbows of 257 .. 110 000 points (sizes just above 2^8 .. 2^16, 10^4, 10^5; corners at a fifth / half / "
+                "four fifths, 3..9 segments from either end and on block seams; faint steep, sharp, V and flat-arm slope pairs; tiled "
+                "spacing patterns; float64 and int64) through curvature, DFDT, Menger, Kneedle t=0 (monotone) and, on sizes its "
+                "quadratic cost allows, every L-method option, admitted and judged by TLC (Trace_ElbowScale) from the compact "
+                "description, sparse samples of the replayed array and the answers")
     ctx.assumptions += ["heights are multiples of 1/8 and offsets dyadic, so every curve is exactly representable in binary64",
                         "L-method refinement is run with its default limit (10); the limit is not one of the property's options",
-                        "uts (gradient, isodata, ema, peak detection) is trusted"]
+                        "uts (gradient, isodata, ema, peak detection) is trusted",
+                        "scale family: the spacings of a production-size elbow are a tiled pattern per arm (period 1..97 over {1,2,3,4}), not "
+                        "independent draws, so that TLC can evaluate the whole curve in closed form from a compact description; TLC "
+                        "compares that closed form with sparse samples of the replayed array, the harness checks the whole array"]
     beh = ctx.gen("Elbow", "Gen_Elbow_quick" if ctx.quick else "Gen_Elbow_thorough", timeout=1800)
     ctx.exhaustive = True
     res = par.pmap(_detect, [(b["pts"], b["corner"], b["mono"]) for b in beh])
@@ -116,6 +416,8 @@ def run(ctx):
             if seen[(clause, detail.get("detector"))] <= 2:
                 ctx.violation(clause, {"pts": e["pts"], "corner": e["corner"], "mono": e["mono"]}, detail,
                               match="%s:%s" % (clause, detail.get("detector")))
+    # ---- S: production-size elbows, admitted and judged by TLC from their compact description
+    _scale(ctx, seen)
     ctx.extra["mismatches_by_detector"] = {"%s/%s" % k: v for k, v in seen.items()}
     # ---- growth beyond C03: Kneedle without smoothing on ALL small integer curves (notes only)
     growth.safe(ctx, growth.kneedle)
@@ -123,5 +425,16 @@ def run(ctx):
 
 def replay(ctx, obj):
     c = obj["case"]
+    if "scale" in c:
+        cv, r = c["scale"], _scale_item((c["scale"], c["group"]))
+        if not r["member"]:
+            raise RuntimeError("replay file does not describe a member of the elbow family")
+        for clause, detail in r["bad"]:
+            ctx.violation(clause, c, detail)
+        for d, got in r["answers"]:
+            if got != cv["a"]:
+                ctx.violation("corner(%s)" % d.split("(")[0].split(".")[0], c,
+                              {"detector": d, "got": None if got < 0 else got, "corner": cv["a"], "points": cv["a"] + cv["b"] + 1})
+        return
     for clause, detail in _detect((c["pts"], c["corner"], c["mono"])):
         ctx.violation(clause, c, detail)
